@@ -15,6 +15,27 @@ CHECKS = {
         design="5/C17"),
 }
 
+CHECKS["C02"] = dict(
+    text="Coq model of the Variant-Id digest (DigestHasher, CoreStep.getDigest): theorems for every hash function H: the recipe "
+         "part is decodable hence injective (character-count prefixed UTF-8, sorted tools/env), equal ids => equal executed/"
+         "consumed content or an explicit H-collision, ids are a function of that content; `_refuted`: argument sequences are "
+         "not separated when host parts move between arguments (finding F5, known). Tie: per step of generated projects the "
+         "model id (Coq SHA-1, vm_compute) equals getVariantId() of the real RecipeSet; oracle: across a project and its "
+         "single-edit neighbours equal id <=> equal (scripts run, non-weak variable values, tools, input variants).",
+    note="trusted: Coq kernel, vm_compute, harness, Common/Sha1.v instance (test vectors); YAML parsing and class resolution are "
+         "exercised through the real parser only",
+    technique="Coq proof (decoder round trip => injectivity; collision-extraction) + model-vs-implementation correspondence",
+    design="5/C02")
+CHECKS["C03"] = dict(
+    text="Same Coq development (Ids/): order independence of tools/variables (sorting is canonical: Permutation + NoDup keys), "
+         "purity (function of core and host stream), Build-Id ignores variant/path/libs of weakly used tools. Tie: model "
+         "Build-Ids equal StepIR.getDigestCoro of the real code; oracle: ids of generated projects are identical under other "
+         "absolute path, permuted file/key order, PYTHONHASHSEED, warm caches, id-irrelevant edits, sandbox on/off (except "
+         "fingerprinted steps), and the shipped reference project reproduces its golden ids.",
+    note="trusted as C02; Build-Ids use synthetic source hashes/fingerprints (the digest function is what is tied)",
+    technique="Coq proof (canonical sorting, purity) + configuration-sweep differential check + golden ids",
+    design="5/C02-C03")
+
 NOT_YET = {}
 
 
